@@ -106,7 +106,22 @@ def gen_find_world(rng, max_atoms=48, max_copies=6, families=None, cell_families
         dmin_pat = pd[np.triu_indices(n, 1)].min()
         while atol > dmin_pat / 5.0:
             atol = atol / 2.0
-    hints = None if axis_exact else pick_hints(rng, P, hints_prob)
+    if pattern is None and family in ("planar", "bigring", "c6") and n >= 4 and rng.random() < 0.35:
+        # handedness carried only by a small out-of-plane offset of one atom (between 0.6 and 3 atol): its mirror image is
+        # a near miss that passes any pair-distance filter
+        nrm = geom.plane_normal(P, 1e-6)
+        if nrm is not None:
+            P = P.copy()
+            P[rng.randrange(n)] += nrm * atol * rng.uniform(0.6, 3.0)
+            D = geom.diameter(P)
+    graze = pattern is None and n >= 2 and not axis_exact and rng.random() < 0.15
+    if graze and rng.random() < 0.7:
+        # start atom (pattern atom 0) = one end of the pattern's diameter
+        e1, e2, _ = geom.effective_hints(P, None)
+        order = [e1] + [i for i in range(n) if i != e1]
+        P = P[order]
+        els = [els[i] for i in order]
+    hints = None if (axis_exact or graze) else pick_hints(rng, P, hints_prob)
     K = geom.amplification_K(P, hints)
     eps_max = atol / (2.0 * K)
     min_width = max(D + 2 * atol, 2.2) * width_mult
@@ -160,7 +175,48 @@ def gen_find_world(rng, max_atoms=48, max_copies=6, families=None, cell_families
             return f @ cell - X[j]
         return f @ cell - X.mean(axis=0)
 
+    def graze_copy():
+        """Copy whose start atom lies just inside a cell face while its farthest atom points straight out through that face
+        and is stretched outward by the (certified) noise: probes the candidate-image window to the last digit."""
+        k = rng.randrange(3)
+        side = rng.choice((0, 1))
+        nrm = np.cross(cell[(k + 1) % 3], cell[(k + 2) % 3])
+        nrm = nrm / np.linalg.norm(nrm)
+        if np.dot(nrm, cell[k]) < 0:
+            nrm = -nrm
+        outward = nrm if side == 1 else -nrm
+        jf = int(np.argmax(np.linalg.norm(P - P[0], axis=1)))
+        u = (P[jf] - P[0]) / np.linalg.norm(P[jf] - P[0])
+        # rotation taking u to outward, then a random twist about outward
+        v = np.cross(u, outward)
+        if np.linalg.norm(v) < 1e-9:
+            R = np.eye(3) if np.dot(u, outward) > 0 else geom.rotation_about(np.cross(u, [0.3, 0.5, 0.8]), math.pi)
+        else:
+            R = geom.rotation_about(v, math.atan2(np.linalg.norm(v), np.dot(u, outward)))
+        R = geom.rotation_about(outward, rng.uniform(0, 2 * math.pi)) @ R
+        X = (P - P[0]) @ R.T
+        eps = eps_max * 0.5
+        N = np.array([[rng.gauss(0, 1) for _ in range(3)] for _ in range(n)])
+        N = N / np.maximum(np.linalg.norm(N, axis=1, keepdims=True), 1e-12) * eps * np.array([[rng.random()] for _ in range(n)])
+        N[0] = 0.0
+        N[jf] = outward * eps * rng.uniform(0.6, 1.0)
+        X = X + N
+        d_in = eps * rng.uniform(0.0, 0.5)
+        f = np.array([rng.uniform(0.2, 0.8) for _ in range(3)])
+        f[k] = float(side)
+        origin = f @ cell - outward * d_in
+        fo = geom.frac(origin, cell)
+        if side == 1 and fo[k] >= 1.0:
+            origin = origin - outward * 1e-9
+        return X + origin, eps
+
     for c in range(ncopies):
+        if graze and c == 0:
+            for attempt in range(12):
+                X, eps = graze_copy()
+                if place(X, "copy", "graze", 1, eps):
+                    break
+            continue
         for attempt in range(12):
             pose = "antiparallel" if (want_antiparallel and c == 0) else rng.choice(["random", "random", "random", "aligned"])
             R = random_pose(pose)
@@ -181,8 +237,15 @@ def gen_find_world(rng, max_atoms=48, max_copies=6, families=None, cell_families
                 break
 
     if decoys:
-        for _ in range(rng.randint(0, 4)):
-            kind = rng.choice(["mirror", "nearmiss", "gray", "partial", "distractor", "distractor"])
+        ndec = rng.randint(0, 4)
+        big_oop = n >= 13 and geom.plane_normal(P, 3.0 * atol) is not None
+        for dnum in range(ndec + (1 if big_oop else 0)):
+            kind = rng.choice(["mirror", "nearmiss", "gray", "partial", "distractor", "distractor", "outofplane", "outofplane"])
+            nrm_pat = geom.plane_normal(P, 3.0 * atol) if kind == "outofplane" else None
+            if kind == "outofplane" and nrm_pat is None:
+                kind = "mirror"
+            if big_oop and dnum == ndec:
+                kind, nrm_pat = "outofplane", geom.plane_normal(P, 3.0 * atol)
             for attempt in range(8):
                 R = geom.random_rotation(rng)
                 if kind == "mirror":
@@ -197,6 +260,15 @@ def gen_find_world(rng, max_atoms=48, max_copies=6, families=None, cell_families
                         X[j] += d / np.linalg.norm(d) * amp * math.sqrt(n)
                     else:
                         X += np.array([[rng.gauss(0, 1) for _ in range(3)] for _ in range(n)]) * amp
+                elif kind == "outofplane":
+                    # one atom pushed out of the pattern's plane: pair distances change only to second order
+                    X = P.copy()
+                    amp = rng.uniform(1.3, 6.0)
+                    if big_oop and dnum == ndec:
+                        # large pattern: a single atom far outside the tolerance still leaves a small average deviation
+                        amp = rng.uniform(3.6, max(3.7, 0.97 * math.sqrt(n)))
+                    X[rng.randrange(n)] += nrm_pat * atol * rng.choice([-1, 1]) * amp
+                    X = X @ R.T
                 elif kind == "partial":
                     if n < 2:
                         break
@@ -228,7 +300,7 @@ def gen_find_world(rng, max_atoms=48, max_copies=6, families=None, cell_families
         "hints": hints,
         "planted": planted,
         "scripts": default_scripts(rng, antiparallel=any(p["pose"] == "antiparallel" for p in planted)),
-        "meta": {"family": family, "cell_family": cfam, "tight_axes": sorted(tight_axes), "K": K, "D": D, "axis_exact": axis_exact},
+        "meta": {"family": family, "cell_family": cfam, "tight_axes": sorted(tight_axes), "K": K, "D": D, "axis_exact": axis_exact, "graze": graze},
     }
 
 
